@@ -10,7 +10,7 @@
    The code has NO error for an alias that leads only to itself (A = A, A = Variant[A], A = B with B = A): such a set
    resolves, and the theorems say so. *)
 From Coq Require Import List Arith Bool.
-From PcoreV Require Import Model.ResolveAlias Proofs.ResolveAliasProofs.
+From PcoreV Require Import Model.ResolveAlias Proofs.ResolveAliasProofs Proofs.ResolveAliasPrintProofs.
 Import ListNotations.
 
 (* ---- (1) the walk ends ---------------------------------------------------------------------------- *)
@@ -65,24 +65,29 @@ Print Assumptions C06_alias_plain_set_resolves.
 (* an undeclared name: a TypeReference where it stands; PCORE_UNRESOLVED_TYPE as the parent of an Object type, directly
    or inside a container *)
 Theorem C06_alias_undeclared_name :
-  forall (st : state) (n f : nat),
+  forall (st : state) (n : nat) (k : k1) (f : nat),
     lookup st n = None ->
     dt_resolve (S f) st (XName n) = ROk st (TRef n) /\
     dt_resolve (S (S f)) st (XObj (XName n)) = RErr EUnresolvedType /\
-    dt_resolve (S (S (S f))) st (XObj (XCont1 (XName n))) = RErr EUnresolvedType.
+    dt_resolve (S (S (S f))) st (XObj (XCont1 k (XName n))) = RErr EUnresolvedType.
 Proof.
-  exact (fun st n f H => conj (undeclared_is_reference st n f H)
-                        (conj (undeclared_parent st n f H) (undeclared_parent_in_container st n f H))).
+  exact (fun st n k f H => conj (undeclared_is_reference st n f H)
+                          (conj (undeclared_parent st n f H) (undeclared_parent_in_container st n k f H))).
 Qed.
 Print Assumptions C06_alias_undeclared_name.
 
 (* Name[argument] for a name that is no core type: NOT_PARAMETERIZED_TYPE when declared, the creator of TypeReference
-   rejects a type argument otherwise *)
+   rejects a type argument otherwise - and words the error with the type of the argument: what leaves is
+   ILLEGAL_ARGUMENT_TYPE or, when the printer asks an alias without resolved type, UNRESOLVED_TYPE (section 4) *)
 Theorem C06_alias_with_arguments :
   forall (st : state) (n : nat) (a : aexp) (f : nat),
     plain a = true -> esize a <= f ->
+    exists t, dt_resolve f st a = ROk st t /\
     dt_resolve (S f) st (XArgs n a) =
-    RErr (match lookup st n with Some _ => ENotParameterized | None => EIllegalArgument end).
+      RErr (match lookup st n with
+            | Some _ => ENotParameterized
+            | None => worded EIllegalArgument EIllegalArgumentOrUnresolved (print_pred st t)
+            end).
 Proof. exact alias_with_arguments. Qed.
 Print Assumptions C06_alias_with_arguments.
 
@@ -105,9 +110,68 @@ Print Assumptions C06_alias_self_alias_parent.
 Theorem C06_alias_non_object_parent :
   forall (st : state) (n : nat) (d : aexp) (t : rty) (f : nat),
     lookup st n = Some (d, SDone t) -> (match t with TObj | TAlias _ => False | _ => True end) ->
-    dt_resolve (S (S (S f))) st (XObj (XName n)) = RErr EIllegalInheritance.
+    dt_resolve (S (S (S f))) st (XObj (XName n)) =
+      RErr (worded EIllegalInheritance EIllegalInheritanceOrUnresolved (print_pred st t)).
 Proof. exact non_object_parent. Qed.
 Print Assumptions C06_alias_non_object_parent.
+
+(* ---- (4) the wording of the two errors that print a type (depth pass 7) ----------------------------------
+   The walk of sections 1-3 now INCLUDES the printer: types.go:212 and objecttype.go:1379-1382 word the error with
+   Type[t], the printer folds commonType over every parameter list of two, and the assignability test behind it asks
+   aliases for their resolved type (Model/ResolveAlias.v asg / common_pred / print_walk / print_pred). All theorems of
+   section 1 are about this extended walk: it ends within the same fuel (the printer has its own depth bound and
+   answers "not predicted" beyond it: the error is then one of the two, class 21 / 41). *)
+
+(* whatever the walk ends with, it is a type, or one of the reported errors (four codes; 21 / 41: one of two codes) -
+   out of fuel is excluded by C06_alias_expression_walk_total; the model has no other outcome *)
+Theorem C06_alias_error_is_reported :
+  forall (c : ecode), In (rres_class (RErr c)) [1; 2; 3; 4; 21; 41].
+Proof. exact error_is_reported. Qed.
+Print Assumptions C06_alias_error_is_reported.
+
+Theorem C06_alias_wording_hands_on :
+  forall (c either : ecode) (p : ppred),
+    worded c either p = c \/ worded c either p = EUnresolvedType \/ worded c either p = either.
+Proof. exact worded_cases. Qed.
+Print Assumptions C06_alias_wording_hands_on.
+
+(* WHEN the wording cannot raise: every alias that occurs in the type, and in the resolved type of every alias of the
+   state, has a resolved type (induction on the depth of the assignability test over its mutual recursion, every
+   state, every guard): the assignability test never reaches ResolvedType() of an alias without one *)
+Theorem C06_alias_assignability_never_raises :
+  forall (st : state), st_closed st -> forall (fuel : nat) (g : list (aty * aty)) (a b : aty),
+    aclosed st a -> aclosed st b -> asg fuel st g a b <> TRaise /\ asg_left fuel st g a b <> TRaise.
+Proof.
+  exact (fun st Hst fuel g a b Ha Hb =>
+           conj (proj1 (asg_closed_no_raise st Hst fuel) g a b Ha Hb) (proj2 (asg_closed_no_raise st Hst fuel) g a b Ha Hb)).
+Qed.
+Print Assumptions C06_alias_assignability_never_raises.
+
+Theorem C06_alias_wording_resolved_never_raises :
+  forall (st : state) (t : rty), st_closed st -> closed st t -> print_pred st t <> PRaises.
+Proof. exact print_pred_closed. Qed.
+Print Assumptions C06_alias_wording_resolved_never_raises.
+
+(* WHEN it raises / does not, on the shapes the run meets: one parameter asks nobody; Integer next to an alias without
+   resolved type (either order, Hash / Tuple / Variant) raises; two different aliases without resolved type do not *)
+Theorem C06_alias_wording_single_parameter :
+  forall (st : state) (k : k1) (n : nat), print_pred st (TC1 k (TAlias n)) = PFine.
+Proof. exact single_parameter_fine. Qed.
+Print Assumptions C06_alias_wording_single_parameter.
+
+Theorem C06_alias_wording_raises_next_to_core :
+  forall (st : state) (k : k2) (n : nat) (d : aexp) (s : slot),
+    lookup st n = Some (d, s) -> (forall t, s <> SDone t) ->
+    print_pred st (TC2 k TCore (TAlias n)) = PRaises /\ print_pred st (TC2 k (TAlias n) TCore) = PRaises.
+Proof. exact alias_next_to_core_raises. Qed.
+Print Assumptions C06_alias_wording_raises_next_to_core.
+
+Theorem C06_alias_wording_two_unresolved :
+  forall (st : state) (k : k2) (n m : nat),
+    Nat.eqb n m = false -> unresolved st n -> unresolved st m ->
+    print_pred st (TC2 k (TAlias n) (TAlias m)) = PFine.
+Proof. exact two_unresolved_fine. Qed.
+Print Assumptions C06_alias_wording_two_unresolved.
 
 (* ---- examples (names: 0 = A, 1 = B, 2 = C, 9 = undeclared) ------------------------------------------ *)
 
@@ -117,27 +181,38 @@ Example C06_alias_circle :
 Proof. vm_compute. reflexivity. Qed.
 (* A = Variant[A] (the alias itself), B = Hash[B, Undeclared], C = Array[A] *)
 Example C06_alias_self_variant :
-  resolved_heads (resolve_all [(0, XVar1 (XName 0)); (1, XCont2 (XName 1) (XName 9)); (2, XCont1 (XName 0))]) = [2; 3; 3].
+  resolved_heads (resolve_all [(0, XVar1 (XName 0)); (1, XCont2 KHash (XName 1) (XName 9)); (2, XCont1 KArray (XName 0))]) = [2; 3; 3].
 Proof. vm_compute. reflexivity. Qed.
 (* A = Array[Object[{parent => A}]]: the stack overflow of the pinned tree (fix 32b5790), PCORE_UNRESOLVED_TYPE now *)
 Example C06_alias_own_parent :
-  resolve_all [(0, XCont1 (XObj (XName 0)))] = RErr EUnresolvedType.
+  resolve_all [(0, XCont1 KArray (XObj (XName 0)))] = RErr EUnresolvedType.
 Proof. vm_compute. reflexivity. Qed.
 (* A = Array[Object[{parent => B}]], B = Variant[Object[{}]]: B is resolved from inside A, the parent is an Object *)
 Example C06_alias_parent_resolved_on_demand :
-  resolved_heads (resolve_all [(0, XCont1 (XObj (XName 1))); (1, XVar1 XObj0)]) = [3; 4].
+  resolved_heads (resolve_all [(0, XCont1 KArray (XObj (XName 1))); (1, XVar1 XObj0)]) = [3; 4].
 Proof. vm_compute. reflexivity. Qed.
 (* .. but not through a second alias that nobody has asked for: B = C is resolved, C is not *)
 Example C06_alias_parent_forward_chain :
-  resolve_all [(0, XCont1 (XObj (XName 1))); (1, XName 2); (2, XVar1 XObj0)] = RErr EUnresolvedType.
+  resolve_all [(0, XCont1 KArray (XObj (XName 1))); (1, XName 2); (2, XVar1 XObj0)] = RErr EUnresolvedType.
 Proof. vm_compute. reflexivity. Qed.
 (* A = B, B = C, C = A, D = Array[Object[{parent => A}]]: the circle is an illegal parent *)
 Example C06_alias_circle_parent :
-  resolve_all [(0, XName 1); (1, XName 2); (2, XName 0); (3, XCont1 (XObj (XName 0)))] = RErr EIllegalInheritance.
+  resolve_all [(0, XName 1); (1, XName 2); (2, XName 0); (3, XCont1 KArray (XObj (XName 0)))] = RErr EIllegalInheritance.
 Proof. vm_compute. reflexivity. Qed.
 (* the fuel bound is not idle: Object[{parent => A}] against A = Array[Object[{parent => A}]] enters A and comes back to
    it; with less fuel than the depth of that walk the answer is out of fuel, with the stated bound it is the error *)
 Example C06_alias_fuel_is_needed :
-  dt_resolve 3 (init_state [(0, XCont1 (XObj (XName 0)))]) (XObj (XName 0)) = ROutOfFuel /\
-  resolve_in [(0, XCont1 (XObj (XName 0)))] (XObj (XName 0)) = RErr EUnresolvedType.
+  dt_resolve 3 (init_state [(0, XCont1 KArray (XObj (XName 0)))]) (XObj (XName 0)) = ROutOfFuel /\
+  resolve_in [(0, XCont1 KArray (XObj (XName 0)))] (XObj (XName 0)) = RErr EUnresolvedType.
 Proof. vm_compute. split; reflexivity. Qed.
+(* A = U[Hash[Integer, A]]: the creator of TypeReference rejects the argument, wording it asks A (under resolution)
+   whether it accepts Integer: PCORE_UNRESOLVED_TYPE leaves; A = U[Array[A]]: nobody is asked, ILLEGAL_ARGUMENT_TYPE *)
+Example C06_alias_wording_raises :
+  resolve_all [(0, XArgs 9 (XCont2 KHash XCore (XName 0)))] = RErr EUnresolvedType /\
+  resolve_all [(0, XArgs 9 (XCont1 KArray (XName 0)))] = RErr EIllegalArgument.
+Proof. vm_compute. split; reflexivity. Qed.
+(* A = Hash[Integer, B], B = Array[Object[{parent => A}]]: A is an illegal parent, worded with Hash[Integer, B] while B
+   has no resolved type *)
+Example C06_alias_wording_raises_parent :
+  resolve_all [(0, XCont2 KHash XCore (XName 1)); (1, XCont1 KArray (XObj (XName 0)))] = RErr EUnresolvedType.
+Proof. vm_compute. reflexivity. Qed.
